@@ -436,13 +436,33 @@ func runEngineCase(c EngineCase) Outcome {
 					return o
 				}
 			}
-			if len(log) < 2 || log[len(log)-2].Method != "newPayload" || log[len(log)-1].Method != "fcu" {
+			// the block's engine calls must end with forkchoice(head), preceded by newPayload(head). A request of an earlier,
+			// cancelled ProcessProposal may reach the fake engine late (the client gave up, the server still answers), so
+			// other newPayload entries in between are tolerated.
+			fcAt := -1
+			for k := len(log) - 1; k >= 0; k-- {
+				if log[k].Method == "fcu" && !log[k].HasAttrs {
+					fcAt = k
+					break
+				}
+			}
+			if fcAt < 0 {
 				o.Fail = failf("engine-told-head", "engine-log-shape", "block %d: engine calls %v", i, log)
 				return o
 			}
-			np, fc := log[len(log)-2], log[len(log)-1]
-			if np.Hash != w.head || fc.Head != w.head || fc.HasAttrs {
-				o.Fail = failf("engine-told-head", "engine-told-another-head", "block %d: engine told newPayload(%x) forkchoice(%x), recorded head %x", i, np.Hash[:4], fc.Head[:4], w.head[:4])
+			fc := log[fcAt]
+			toldPayload := false
+			var lastNP common.Hash
+			for k := 0; k < fcAt; k++ {
+				if log[k].Method == "newPayload" {
+					lastNP = log[k].Hash
+					if log[k].Hash == w.head {
+						toldPayload = true
+					}
+				}
+			}
+			if !toldPayload || fc.Head != w.head {
+				o.Fail = failf("engine-told-head", "engine-told-another-head", "block %d: engine told newPayload(%x) forkchoice(%x), recorded head %x", i, lastNP[:4], fc.Head[:4], w.head[:4])
 				return o
 			}
 			if headNumber > 0 && (fc.Safe != w.parent || fc.Finalized != w.parent) {
